@@ -1,20 +1,21 @@
 #!/bin/sh
-# tools/seed_intake.sh <Cxx> <k>  : verify a seeded change produced in /tmp/seed/<Cxx>_out/<k> and copy it to seeded/
-id=$1; k=$2
+# tools/seed_intake.sh <Cxx> <k> [<name-suffix>] : verify a seeded change produced in /tmp/seed/<Cxx>_out/<k> on a scratch
+# copy of /repo (demo passes unchanged / fails with the change, patch applies) and copy it to seeded/<Cxx>-<suffix>
+id=$1; k=$2; suf=${3:-$k}
 src=/tmp/seed/${id}_out/$k
-wt=/tmp/seed/$id
-dst=/verif/seeded/$id-$k
+dst=/verif/seeded/$id-$suf
+cp=/var/tmp/intake_${id}_$k
 [ -f $src/patch.diff ] || { echo "no patch"; exit 2; }
-cd $wt || exit 2
-git checkout -q -- . ; git clean -fdq AegeanTools
-echo "== demo on unchanged tree"
-PYTHONPATH=$wt timeout 900 /venv/bin/python -W ignore $src/demo.py > /tmp/seed/demo_$id_$k.a 2>&1; a=$?
-git apply $src/patch.diff || { echo "patch does not apply"; exit 2; }
-echo "== demo with change"
-PYTHONPATH=$wt timeout 900 /venv/bin/python -W ignore $src/demo.py > /tmp/seed/demo_$id_$k.b 2>&1; b=$?
-git checkout -q -- . ; git clean -fdq AegeanTools
+rm -rf $cp; mkdir -p $cp; git -C /repo archive HEAD | tar -x -C $cp
+cd $cp || exit 2
+PYTHONPATH=$cp timeout 1200 /venv/bin/python -W ignore $src/demo.py > $cp.a 2>&1; a=$?
+git init -q . >/dev/null 2>&1
+git apply $src/patch.diff || { echo "patch does not apply to current /repo HEAD"; rm -rf $cp $cp.a; exit 2; }
+PYTHONPATH=$cp timeout 1200 /venv/bin/python -W ignore $src/demo.py > $cp.b 2>&1; b=$?
 echo "demo exit unchanged=$a changed=$b"
-[ $a = 0 ] && [ $b != 0 ] || { echo "DEMO DOES NOT DISCRIMINATE"; tail -3 /tmp/seed/demo_$id_$k.a /tmp/seed/demo_$id_$k.b; exit 1; }
-mkdir -p $dst
-cp $src/patch.diff $src/demo.py $src/meta.json $dst/
-echo "copied to $dst"
+if [ $a = 0 ] && [ $b != 0 ]; then
+  mkdir -p $dst; cp $src/patch.diff $src/demo.py $src/meta.json $dst/; echo "copied to $dst"
+else
+  echo "DEMO DOES NOT DISCRIMINATE"; tail -3 $cp.a $cp.b
+fi
+rm -rf $cp $cp.a $cp.b
